@@ -485,7 +485,7 @@ static void note(const Words &w, const Out &o) {
     for (auto &kv : o.lab) if (kv.second) vf::label(kv.first, (uint64_t)kv.second);
 }
 static void setup() {
-    const char *e = getenv("C39_INCLUDE_DELETE_OVERRUN"); g_include_overrun = e && *e == '1';
+    const char *e = getenv("C39_INCLUDE_DELETE_OVERRUN"); g_include_overrun = !(e && *e == '0');   // repaired in /repo (4c1c2af): overrunning deletes are generated by default
     stderr = fopen("/dev/null", "w");           // the parser prints its diagnostics with fprintf(stderr, ...); sanitizers write to fd 2 directly
 }
 static Words bytes_to_words(const uint8_t *d, size_t n) { Words w; for (size_t i = 0; i + 1 < n; i += 2) w.push_back((long)d[i] | ((long)d[i + 1] << 8)); return w; }
